@@ -140,6 +140,7 @@ type ChildOpt struct {
 	Uncles   int    // 0 random, 1 no uncles, 2 uncles (affects the difficulty of ITS children)
 	GasShape int    // 0 random, 1 keep, 2 max up, 3 max down
 	Root     *Hash  // state root to commit to
+	Skip     uint64 // NON-conforming on purpose: number = parent.number + 1 + Skip; every other field follows the rules for that number
 }
 
 var dts = []uint64{1, 2, 8, 9, 10, 13, 17, 18, 19, 26, 27, 45, 89, 90, 91, 500, 890, 891, 899, 900, 901, 1000, 5000}
@@ -148,7 +149,7 @@ var dts = []uint64{1, 2, 8, 9, 10, 13, 17, 18, 19, 26, 27, 45, 89, 90, 91, 500, 
 // of parent, under the given fork schedule.
 func Child(rng *rand.Rand, forks Forks, parent *Hdr, o ChildOpt) *Hdr {
 	c := &Hdr{ParentHash: parent.Hash(), UncleHash: EmptyUncleHash, Root: RandHash(rng), TxHash: RandHash(rng), ReceiptHash: RandHash(rng),
-		Number: parent.Number + 1}
+		Number: parent.Number + 1 + o.Skip}
 	rng.Read(c.Coinbase[:])
 	rng.Read(c.Nonce[:])
 	c.MixDigest = RandHash(rng)
